@@ -43,7 +43,7 @@ func verifOsfsOpen(path string, mode os.FileMode) (*osfs.File, error) {
 	}
 	d := verifOS.disks[path]
 	if d == nil {
-		d = newMemFile(96 * 1024)
+		d = newMemFile(192 * 1024)
 		verifOS.disks[path] = d
 	}
 	f := &osfs.File{File: verifNewOSFile()}
@@ -88,13 +88,40 @@ const verifPath = "/data/queue.dat"
 func VerifPathLock() {
 	verifOSReset()
 	opts := Options{MaxSize: 64 * verifPageSize, PageSize: verifPageSize}
+	if verifParam("txsteps", 1) == 1 && verifBool("unbounded") {
+		opts.MaxSize = 0 // the file can grow past its first mapping
+	}
+	nKinds := 6
+	if verifParam("txsteps", 1) == 1 {
+		nKinds = 7
+	}
 	lockPath := verifPath + ".lock"
 	var open *File
 	nSteps := verifParam("steps", 3)
 	for step := 0; step < nSteps; step++ {
 		verifAssert(verifFlockHeld(lockPath) == (open != nil), "the path lock is held exactly while a File is open")
 		verifAssert(verifOS.opened == 0 || open != nil, "no descriptor stays open without an open File")
-		switch verifChoose(6) {
+		switch verifChoose(nKinds) {
+		case 6: // the open File is used: a write transaction that grows the file, optionally with an I/O failure
+			if open != nil {
+				d := verifOS.disks[verifPath]
+				tx, berr := open.Begin()
+				verifAssert(berr == nil, "Begin succeeds on the open File")
+				n := 1
+				if opts.MaxSize == 0 {
+					n = 70
+				}
+				if ps, aerr := tx.AllocN(n); aerr == nil {
+					_ = ps[0].SetBytes(verifBuf(1, 2, 3))
+				}
+				if verifParam("nofault", 0) == 0 {
+					// (a failing MMap while the grown file is re-mapped leaves the File without a mapping)
+					kind := []int{faultNone, faultWrite, faultSync, faultMMap}[verifChoose(4)]
+					d.faultKind, d.faultOrd, d.faultBurst = kind, d.counts[kind], 1
+				}
+				_ = tx.Commit() // success or failure: the File stays open and owns the lock
+				d.faultKind = faultNone
+			}
 		case 0: // plain open
 			f, err := Open(verifPath, 0600, opts)
 			if open != nil {
@@ -123,7 +150,7 @@ func VerifPathLock() {
 			if open == nil && verifParam("nofault", 0) == 0 {
 				d := verifOS.disks[verifPath]
 				if d == nil {
-					d = newMemFile(96 * 1024)
+					d = newMemFile(192 * 1024)
 					verifOS.disks[verifPath] = d
 				}
 				kind := verifFaultKinds[verifChoose(len(verifFaultKinds))]
@@ -149,14 +176,14 @@ func VerifPathLock() {
 			}
 		case 5: // close
 			if open != nil {
-				verifAssert(open.Close() == nil, "Close succeeds")
+				_ = open.Close()
 				open = nil
 			}
 		}
 	}
 	verifAssert(verifFlockHeld(lockPath) == (open != nil), "the path lock is held exactly while a File is open")
 	if open != nil {
-		verifAssert(open.Close() == nil, "Close succeeds")
+		_ = open.Close() // (Close may report an error of an earlier failure; it must still release everything)
 	}
 	verifAssert(!verifFlockHeld(lockPath), "after Close the path lock is free")
 	verifAssert(verifOS.opened == 0, "after Close no descriptor is left open")
